@@ -65,7 +65,7 @@ Proof.
   unfold dd_paren. destruct (a_assigns a) as [|x xs] eqn:E.
   - rewrite hook_count_dd_call. simpl. lia.
   - unfold mk_paren, mk_seq, mk. cbn [fst snd].
-    rewrite (hook_count_node (K KParen (fst span) (snd span))) by reflexivity. cbn [is_hook hook_call].
+    rewrite (hook_count_node (K KParen _ _)) by reflexivity. cbn [is_hook hook_call].
     unfold hook_count_list at 1. cbn [fold_right].
     rewrite (hook_count_node (K KSeq (fst span) (snd span))) by reflexivity. cbn [is_hook hook_call].
     unfold hook_count_list at 1. cbn [fold_right].
